@@ -279,8 +279,9 @@ def specs(tier):
         add("skew", fclass='skew', value_metric=False)
         # one gradient-step model per remaining shipped class (operators: metric on points only)
         operators = ('monotone', 'strmono', 'coco', 'lipop', 'nonexp', 'cocostr', 'lipstr', 'negcomo')
-        for key in ('sc', 'strongly', 'lipschitz', 'smooth', 'indicator', 'support') + operators:
-            add("class-" + key, fclass=key, **(dict(value_metric=False) if key in operators else {}))
+        for key in ('sc', 'strongly', 'lipschitz', 'smooth', 'indicator', 'support', 'rsi') + operators:
+            # RsiEb conditions do not involve function values: a value metric would be unbounded (no KKT point)
+            add("class-" + key, fclass=key, **(dict(value_metric=False) if key in operators + ('rsi',) else {}))
     return out
 
 
